@@ -684,14 +684,14 @@ def cons_run(ctx):
 
 
 # ---- Upgrade.tla: several upgrade candidates of one session (admission tests | MaybeUpgrade | probe | upgrade packet | switch)
-UPGR_INV = "TypeOK C08_OneAtATime C08_NoneAfterSwitch C08_AtMostOnce C08_SwitchKept C08_FlagMeansCandidate"
+UPGR_INV = "TypeOK C08_OneAtATime C08_NoneAfterSwitch C08_AtMostOnce C08_SwitchKept C08_FlagMeansCandidate C08_ProbeNotLost"
 UPGR_DEVS = [("NoCAS", "C08_OneAtATime"), ("NoCAS", "C08_FlagMeansCandidate"), ("SwitchWindow", "C08_AtMostOnce"),
-             ("SwitchWindow", "C08_NoneAfterSwitch"), ("SwitchWindow", "C08_SwitchKept")]
+             ("SwitchWindow", "C08_NoneAfterSwitch"), ("SwitchWindow", "C08_SwitchKept"), ("EagerReader", "C08_ProbeNotLost")]
 
 
-def upgr_cfg(cands, inv=UPGR_INV, dev="{}", view=True):
-    return ("SPECIFICATION Spec\nCONSTANTS Cands = %s Deviations = %s\n%sINVARIANTS %s\nCHECK_DEADLOCK FALSE\n"
-            % (cands, dev, "VIEW view\n" if view else "", inv))
+def upgr_cfg(cands, inv=UPGR_INV, dev="{}", view=True, live=False):
+    return ("SPECIFICATION %s\nCONSTANTS Cands = %s Deviations = %s\n%sINVARIANTS %s\n%sCHECK_DEADLOCK FALSE\n"
+            % ("FairSpec" if live else "Spec", cands, dev, "VIEW view\n" if view and not live else "", inv, "PROPERTY L_C08_ProbeAnswered\n" if live else ""))
 
 
 def upgr_run(ctx):
@@ -700,6 +700,7 @@ def upgr_run(ctx):
     number of switches and the candidates' connections compared after every step, judge the traces with EioMon."""
     q = ctx.quick
     M.tlc_model(ctx, "Upgrade", upgr_cfg('{"a","b"}'), "upgr_ab")
+    M.tlc_model(ctx, "Upgrade", upgr_cfg('{"a","b"}', live=True), "upgr_ab_live")
     M.tlc_model(ctx, "Upgrade", upgr_cfg('{"a","b","c"}'), "upgr_abc")
     if not q:
         M.tlc_model(ctx, "Upgrade", upgr_cfg('{"a","b","c","d"}'), "upgr_abcd", timeout=1800)
@@ -715,7 +716,7 @@ def upgr_run(ctx):
     if not all(sens.values()):
         raise M.Inconclusive("Upgrade.tla is not sensitive to %s" % [k for k, v in sens.items() if not v])
     d = M.tlc_dir(ctx, "g_upgr")
-    M.write_cfg(d, "g", upgr_cfg('{"a","b","c"}', inv="TypeOK", view=False))
+    M.write_cfg(d, "g", upgr_cfg('{"a","b"}' if q else '{"a","b","c"}', inv="TypeOK", view=False))
     rc, out = M.sh(["tlc", "-workers", "4", "-metadir", os.path.join(d, "meta"), "-dump", "dot,actionlabels", os.path.join(d, "graph"),
                     "-config", "g.cfg", "Upgrade.tla"], cwd=d, timeout=900)
     if rc == 124 or "Model checking completed. No error" not in out:
